@@ -394,6 +394,22 @@ def body(ctx):
                 "(void)(a == b); (void)(a != b); (void)(a < b); (void)(a <= b); (void)(a > b); (void)(a >= b); (void)(b == a); (void)(b < a); (void)(a + b); (void)(a - b); (void)(b - a); }"
                 % (mexpr(inst.m1), "using V = U;" if same else "struct V : decltype(B{} * (%s)) {};" % mexpr(inst.m2), inst.r1, inst.r2))
         items.append(witness.Item("w:%s" % inst.key, code, "accept", None, dict(desc="mixed-unit operators for %s compile under every configuration" % inst.key)))
+        if model.is_int(inst.r1) and model.is_int(inst.r2):
+            # the same operators inside constant expressions (the library promises constexpr under
+            # C++14), with the exact values for one pair of operands
+            lo, hi = model.int_range(inst.rc)
+            x, y = 7, 3
+            A, B = x * inst.k1, y * inst.k2
+            if lo <= A <= hi and lo <= B <= hi and lo <= A + B <= hi and lo <= A - B <= hi and B != 0:
+                cu = "au::CommonUnitT<U, V>"
+                q = "au::make_quantity<U>(%s{%d})" % (inst.r1, x), "au::make_quantity<V>(%s{%d})" % (inst.r2, y)
+                ca = ("struct B : au::UnitImpl<au::Length> {}; struct U : decltype(B{} * (%s)) {}; %s\n" % (mexpr(inst.m1), "using V = U;" if same else "struct V : decltype(B{} * (%s)) {};" % mexpr(inst.m2))
+                      + "static_assert((%s + %s).in(%s{}) == %d, \"constexpr +\");\n" % (q[0], q[1], cu, A + B)
+                      + "static_assert((%s - %s).in(%s{}) == %d, \"constexpr -\");\n" % (q[0], q[1], cu, A - B)
+                      + "static_assert((%s %% %s).in(%s{}) == %d, \"constexpr %%\");\n" % (q[0], q[1], cu, A % B)
+                      + "static_assert((%s < %s) == %s && (%s == %s) == %s && (%s >= %s) == %s, \"constexpr comparisons\");"
+                      % (q[0], q[1], "true" if A < B else "false", q[0], q[1], "true" if A == B else "false", q[0], q[1], "true" if A >= B else "false"))
+                items.append(witness.Item("cx:%s" % inst.key, ca, "accept", None, dict(desc="mixed-unit + - %% and comparisons of %s in constant expressions, exact values for (7, 3)" % inst.key)))
     chrono = ("void w() { auto s = au::seconds(3); std::chrono::milliseconds ms{5}; std::chrono::duration<double> d{1.5};\n"
               "(void)(s == ms); (void)(ms == s); (void)(s < ms); (void)(ms < s); (void)(s + ms); (void)(ms + s); (void)(s - ms); (void)(ms - s);\n"
               "(void)(au::seconds(1.0) < d); (void)(d >= au::seconds(1.0)); (void)(au::milli(au::seconds)(7) != ms); }")
